@@ -47,10 +47,13 @@ def with_layout(rng, P):
 
 
 RX_FLAGS = {
-    ('srv', 'hdr'): ['chunks', 'second', 'chunks.second'],
-    ('srv', 'trl'): ['split', 'nodata', 'pend', 'chunks', 'second', 'split.pend', 'split.nodata', 'split.chunks.second'],
-    ('cli', 'hdr'): ['split', 'clone0', 'clone1', 'chunks', 'second', 'clone1.split', 'clone0.split.chunks'],
-    ('cli', 'trl'): ['split', 'nodata', 'pend', 'chunks', 'second', 'clone0.split', 'clone1.pend', 'split.nodata'],
+    ('srv', 'hdr'): ['chunks', 'second', 'chunks.second', 'after', 'after.grease', 'grease.pchunk', 'after.pchunk.chunks'],
+    ('srv', 'trl'): ['split', 'nodata', 'pend', 'chunks', 'second', 'split.pend', 'split.nodata', 'split.chunks.second',
+                     'data', 'data.split', 'data.after', 'after.grease', 'data.pend.pchunk'],
+    ('cli', 'hdr'): ['split', 'clone0', 'clone1', 'chunks', 'second', 'clone1.split', 'clone0.split.chunks',
+                     'after', 'after.grease', 'clone1.after.pchunk', 'grease.split'],
+    ('cli', 'trl'): ['split', 'nodata', 'pend', 'chunks', 'second', 'clone0.split', 'clone1.pend', 'split.nodata',
+                     'data', 'data.split.after', 'after.grease.pchunk', 'data.pend'],
 }
 
 
@@ -79,7 +82,7 @@ class P(Property):
             '1..4 regular fields) whose RFC 9114 size sweeps L-2..L+2 plus seeded others x request / response / request trailers / response '
             'trailers x peer SETTINGS carrying MAX_FIELD_SECTION_SIZE in {absent frame, absent parameter, 0, 41, 42, 43, 1000, 2^62-1} (decides '
             'whether the 431 answer is written); observed: delivered or header-too-big, error scope, the HEADERS payload written in reaction '
-            '(decoded by the reference decoder: must be :status 431), stop/reset codes, connection close. lim.rx variants: the stream split() and its receive half used, the request sent through a clone of SendRequest taken before / after the peer SETTINGS (small own limit with a generous peer and the reverse), trailers read without recv_data, recv_trailers first polled before the FIN, the HEADERS frame in three chunks, the second request stream; peer SETTINGS are realistic (QPACK, datagram, extended-connect and grease parameters with MAX_FIELD_SECTION_SIZE first / middle / last / absent); lim.adv: the MAX_FIELD_SECTION_SIZE each endpoint writes in its own SETTINGS equals the configured limit. lim.tx: own limit (irrelevant, '
+            '(decoded by the reference decoder: must be :status 431), stop/reset codes, connection close. lim.rx variants: the stream split() and its receive half used, the request sent through a clone of SendRequest taken before / after the peer SETTINGS (small own limit with a generous peer and the reverse), trailers read without recv_data, recv_trailers first polled before the FIN, the HEADERS frame in three chunks, the second request stream, a DATA frame before the trailers, a further minimal message on the next stream after the outcome (refused or not) which must be judged on its own, send_grease(true), the peer control stream one octet at a time; lim.tx roles cli.clone0 / cli.clone1 / cli.split / srv.split send through cloned handles and the send half of split() with peer limits below the section size; peer SETTINGS are realistic (QPACK, datagram, extended-connect and grease parameters with MAX_FIELD_SECTION_SIZE first / middle / last / absent); lim.adv: the MAX_FIELD_SECTION_SIZE each endpoint writes in its own SETTINGS equals the configured limit. lim.tx: own limit (irrelevant, '
             'varied) x peer limit P in {absent,0,1,41,42,43,75,167,199..202,1000,2500,8192 (16383, 16384, 40000 in thorough),2^32,2^62-1, seeded} x programs of send_request / '
             'send_response / send_trailers (sizes up to 2500: the extracted Huffman encoder model is quadratic) with sizes P-2..P+2 and seeded others, with the peer SETTINGS applied before, between or after '
             'the send attempts or never, and (lim.txw) while send_request is parked waiting for stream credit (0 bidirectional credit, SETTINGS processed, then credit granted); observed per call: Ok or HeaderTooBig and exactly what was written (decoded by the reference '
